@@ -58,6 +58,18 @@ def gen_cases(tier):
         else:
             continue
         cfgs = [([], True, None), ([], False, None)]
+        conn = [v for v in d1["outv"] if v in d2["inv"]]
+        if conn and rng.random() < 0.6:
+            # both sides state the same (or a scaled / weaker) guarantee over a connection variable that is kept
+            y = rng.choice(conn)
+            r = gen.rrow(rng, [y] + [v for v in d1["inv"] if v in d2["inv"]][:1], must=y, nmax=2)
+            d1["g"].append(r)
+            d2["g"].append(r if rng.random() < 0.5 else c08.scaled(r, 2))
+            try:
+                gen.mk_contract(d1), gen.mk_contract(d2)
+                cfgs += [([y], True, None), (list(conn), True, gen.rorder(rng))]
+            except ValueError:
+                d1["g"].pop(), d2["g"].pop()
         ks = gen.keep_choices(rng, d1, d2)
         cfgs.append((rng.choice(ks), rng.random() < 0.5, gen.rorder(rng)))
         cases.append({"id": i + 1, "raw": [d1, d2], "op": "compose", "swap": swap, "cfgs": cfgs})
